@@ -11,6 +11,7 @@ import (
 	"bytes"
 	"context"
 	"encoding/json"
+	"errors"
 	"fmt"
 	"io"
 	"net/http/httptest"
@@ -295,6 +296,96 @@ func c19Framing(texts []string) (sig, msg string) {
 		return "c19 ndjson-write-error", err.Error()
 	}
 	return "", ""
+}
+
+// c19ChunkReader delivers a byte stream in the given chunks, one per Read.
+type c19ChunkReader struct{ chunks [][]byte }
+
+func (r *c19ChunkReader) Read(p []byte) (int, error) {
+	for len(r.chunks) > 0 && len(r.chunks[0]) == 0 {
+		r.chunks = r.chunks[1:]
+	}
+	if len(r.chunks) == 0 {
+		return 0, io.EOF
+	}
+	n := copy(p, r.chunks[0])
+	r.chunks[0] = r.chunks[0][n:]
+	return n, nil
+}
+func (r *c19ChunkReader) Close() error { return nil }
+
+type c19NopWriter struct{}
+
+func (c19NopWriter) Write(p []byte) (int, error) { return len(p), nil }
+func (c19NopWriter) Close() error                { return nil }
+
+// c19Chunking: the newline-delimited reader sees a peer's byte stream in whatever pieces the
+// operating system hands over.  A stream of four messages, lines ended by eol (the last line
+// ended or not), is delivered cut into up to three pieces at every pair of offsets; every
+// delivery must yield exactly the four messages, in order, then the end of the stream.
+func c19Chunking(cases *verifx.Cases, thorough bool) {
+	texts := []string{
+		`{"jsonrpc":"2.0","id":1,"method":"ping"}`,
+		`{"jsonrpc":"2.0","method":"notifications/initialized","params":{"a":"x\r\ny"}}`,
+		`{"jsonrpc":"2.0","id":"s","result":{"content":[]}}`,
+		`{"jsonrpc":"2.0","id":9007199254740993,"error":{"code":-32601,"message":"nope"}}`,
+	}
+	var want [][]byte
+	for _, t := range texts {
+		m, err := jsonrpc2.DecodeMessage([]byte(t))
+		if err != nil {
+			panic(err)
+		}
+		w, _ := jsonrpc2.EncodeMessage(m)
+		want = append(want, w)
+	}
+	for _, eol := range []string{"\n", "\r\n"} {
+		for _, lastEnded := range []bool{true, false} {
+			stream := strings.Join(texts, eol)
+			if lastEnded {
+				stream += eol
+			}
+			for i := 0; i <= len(stream); i++ {
+				for j := i; j <= len(stream); j++ {
+					if !thorough && j != i && j != len(stream) && j-i > 2 {
+						continue // quick: two pieces, or a middle piece of one or two bytes
+					}
+					idx, mine := cases.Next()
+					if !mine {
+						continue
+					}
+					desc := fmt.Sprintf("eol=%q last-line-ended=%v cut at %d and %d of %d bytes", eol, lastEnded, i, j, len(stream))
+					rd := &c19ChunkReader{chunks: [][]byte{[]byte(stream[:i]), []byte(stream[i:j]), []byte(stream[j:])}}
+					conn, _ := (&IOTransport{Reader: rd, Writer: c19NopWriter{}}).Connect(context.Background())
+					bad := ""
+					for k := 0; k <= len(want) && bad == ""; k++ {
+						got, err := conn.Read(context.Background())
+						switch {
+						case k == len(want):
+							if err == nil {
+								g, _ := jsonrpc2.EncodeMessage(got)
+								bad = fmt.Sprintf("a fifth message %s was read from a stream of four", g)
+							} else if !errors.Is(err, io.EOF) {
+								bad = fmt.Sprintf("after the four messages the stream ended with %v, want EOF", err)
+							}
+						case err != nil:
+							bad = fmt.Sprintf("message %d of 4: %v", k+1, err)
+						default:
+							if g, _ := jsonrpc2.EncodeMessage(got); !bytes.Equal(g, want[k]) {
+								bad = fmt.Sprintf("message %d of 4 read as %s, sent %s", k+1, g, want[k])
+							}
+						}
+					}
+					conn.Close()
+					if bad != "" {
+						cases.Violate(idx, fmt.Sprintf("c19 ndjson-chunking eol=%q", eol), bad+" ["+desc+"]", 3)
+						continue
+					}
+					cases.Record(idx, fmt.Sprintf("chunking eol=%q ended=%v ok", eol, lastEnded), 3, func() string { return desc })
+				}
+			}
+		}
+	}
 }
 
 // ---- (c) content kinds
@@ -785,6 +876,7 @@ func TestVerifC19(t *testing.T) {
 			fr.Record(idx, "framing-ok", 0, nil)
 		}
 	}
+	c19Chunking(env.NewCases(res, "ndjson-reader-chunking"), !env.Quick())
 	cc := env.NewCases(res, "content-and-required-members")
 	c19CheckContents(cc)
 	c19WireRequired(cc)
